@@ -218,8 +218,8 @@ def gen_cases(ctx):
     cases.append({'A': 64, 'N': 2, 'off': 16, 'K': 1, 'toks': ['C,0', 'P,0,0,5', 'P,0,0,6', 'P,0,0,7'], 'tag': 'witness-align'})
     cases.append({'A': 32, 'N': 1, 'off': -1, 'K': 1, 'toks': ['C,0', 'P,0,0,5', 'P,0,0,6'], 'tag': 'witness-align-native'})
     cases.append({'A': 8, 'N': 2, 'off': -1, 'K': 1, 'toks': ['C,0', 'P,0,0,11', 'P,0,0,22', 's,0,0'], 'tag': 'witness-selfref'})
-    n_rand = 400 if ctx.quick else 8000
-    n_self = 24 if ctx.quick else 200
+    n_rand = 220 if ctx.quick else 8000
+    n_self = 16 if ctx.quick else 200
     for i in range(n_self):
         A, N = r.choice(ALS[:2]), r.choice(NS)
         if i % 2 == 0:
@@ -320,11 +320,30 @@ def coq_op(tok):
     raise ValueError(tok)
 
 
+def pl(xs):
+    # transport encoding: positives p = z + 3 (see Model/C38Check.v judgeP)
+    # every legitimate value is in [-2, 2^40]; anything else is garbage the implementation read from dead storage
+    # (possible only in the self-reference finding) and is transmitted as 2^40+1, which matches no specified value
+    return dv.coq_list(['%d' % ((x if -2 <= x <= (1 << 40) else (1 << 40) + 1) + 3) for x in xs])
+
+
 def coq_case(c, p):
-    steps = dv.coq_list(['(%s, %s)' % (zl(h), dv.coq_list([zl(s) for s in sl])) for h, sl in p['steps']])
-    return '(mkCase %s %d %d %s %s %s %s %s %s %s %s %s)' % (
+    steps = dv.coq_list(['(%s, %s)' % (pl(h), dv.coq_list([pl(s) for s in sl])) for h, sl in p['steps']])
+    return '(%s, %d%%nat, %d%%nat, %s, (%s, %s, %s), (%s, %s), %s, %s, %s)' % (
         zp(c['A']), c['N'], c['K'], dv.coq_list([coq_op(t) for t in c['toks']]), zp(p['objmod']), zp(p['inloff']), zp(p['szT']),
-        zl([b[1] for b in p['blocks']]), zl([b[0] for b in p['blocks']]), steps, dv.coq_list([zl(s) for s in p['full']]), zl(p['fin']))
+        pl([b[1] for b in p['blocks']]), pl([b[0] for b in p['blocks']]), steps, dv.coq_list([pl(s) for s in p['full']]), pl(p['fin']))
+
+
+def coq_judge(ctx, name, terms, timeout=600):
+    """like pf_common.coq_judge, but the bare numerals of the case terms are positives (transport encoding)"""
+    body = ('From Coq Require Import ZArith List Bool.\nImport ListNotations.\n' + IMPORTS +
+            '\nLocal Open Scope Z_scope.\nLocal Open Scope positive_scope.\n' +
+            'Definition cases_0 := %s.\nEval vm_compute in (map judgeP cases_0).\n' % dv.coq_list(terms))
+    rc, out = dv.coq_eval(ctx.work, name, body, timeout)
+    if rc != 0:
+        ctx.cov.setdefault('coq_eval_errors', []).append(out[-1500:])
+        return None
+    return [dv.parse_zlist(dv.eval_results(out)[0])]
 
 
 IMPORTS = 'From DV Require Import Base.MachInt Base.Corr Model.SmallVecLife Model.SmallVecModel Model.C38Check.'
@@ -332,7 +351,7 @@ IMPORTS = 'From DV Require Import Base.MachInt Base.Corr Model.SmallVecLife Mode
 
 def run(ctx):
     ctx.prove(models=['Model/C38Check.v', 'Base/Corr.v'])
-    exe = dv.build_harness('h_smallvec', ['h_smallvec.cpp'], need_lib=False)
+    exe = dv.build_harness('h_smallvec', ['h_smallvec.cpp'], need_lib=False, extra_flags=('-O0', '-g0'))  # 16 instantiations: -O1 -g takes 30 s to compile
     cases = gen_cases(ctx)
     outs = pf_common.run_harness(exe, [case_line(c) for c in cases])
     ctx.phase('harness')
@@ -352,7 +371,7 @@ def run(ctx):
     # the shards are independent coqc processes: run them side by side (elaborating the literals dominates)
     from concurrent.futures import ThreadPoolExecutor
     with ThreadPoolExecutor(max_workers=8) as ex:
-        results = list(ex.map(lambda a: pf_common.coq_judge(ctx, 'cases%d' % a[0], IMPORTS, [('judge', [terms[i] for i in a[1]])]), enumerate(shards)))
+        results = list(ex.map(lambda a: coq_judge(ctx, 'cases%d' % a[0], [terms[i] for i in a[1]]), enumerate(shards)))
     for idxs, res in zip(shards, results):
         if res is None:
             ctx.broken.append('correspondence D(C38): the model / judge no longer evaluates (see coq_eval_errors)')
